@@ -5,6 +5,7 @@ import OPModel.Drive.C01
 import OPModel.Drive.C08
 import OPModel.Drive.C05
 import OPModel.Drive.C07
+import OPModel.Drive.C20
 
 open OP
 
@@ -16,6 +17,7 @@ def handle (line : String) : String :=
   | "cascade" :: args => Drive.cascade args
   | "insert" :: args => Drive.insert args
   | "pockets" :: args => Drive.pockets args
+  | "entu" :: args => Drive.entu args
   | "pinch" :: args => Drive.pinch args
   | "pincht" :: args => Drive.pincht args
   | _ => "bad-op"
